@@ -827,10 +827,133 @@ func (p *Program) successResultsR(fn *ssa.Function, rr *renderer, depth int) []r
 			}
 			continue
 		}
-		rc := resultCase{Ret: r, Value: rr.val(res[0], 0)}
+		// single-exit form: `result := A; switch … { case …: result = B }; return &result` — one case
+		// per path from the entry to this return, with the value stored last on it
+		plain := rr.val(res[0], 0)
+		if strings.Contains(plain, "var:") {
+			if ways := p.resultVariableWays(fn, r, res[0], rr); len(ways) > 0 {
+				out = append(out, ways...)
+				continue
+			}
+		}
+		rc := resultCase{Ret: r, Value: plain}
 		rc.Guards = guardsOf(r.Block())
 		sort.Strings(rc.Guards)
 		out = append(out, rc)
+	}
+	return out
+}
+
+// resultVariableWays: v is the address of a local that is only ever assigned as a whole (two or
+// more stores) and returned here. The acyclic paths from the entry to the return are enumerated
+// (at most 256); each gives a case: the value stored last on the path, under the branch facts of the
+// path. Cases with the same value and guards are merged. nil when the form does not apply.
+func (p *Program) resultVariableWays(fn *ssa.Function, ret *ssa.Return, v ssa.Value, rr *renderer) []resultCase {
+	a, ok := v.(*ssa.Alloc)
+	if !ok || len(fn.Blocks) == 0 {
+		return nil
+	}
+	stores := map[*ssa.BasicBlock][]*ssa.Store{}
+	nSt := 0
+	for _, ref := range referrersOf(a) {
+		switch x := ref.(type) {
+		case *ssa.Store:
+			if x.Addr != ssa.Value(a) {
+				return nil
+			}
+			stores[x.Block()] = append(stores[x.Block()], x)
+			nSt++
+		case *ssa.Return, *ssa.DebugRef:
+		default:
+			return nil
+		}
+	}
+	if nSt < 2 {
+		return nil
+	}
+	F := FactsOf(fn)
+	type way struct {
+		val    string
+		guards []string
+	}
+	seen := map[string]bool{}
+	var out []resultCase
+	nPaths := 0
+	overflow := false
+	onPath := map[*ssa.BasicBlock]bool{}
+	var dfs func(b *ssa.BasicBlock, last *ssa.Store, fs factSet)
+	dfs = func(b *ssa.BasicBlock, last *ssa.Store, fs factSet) {
+		if overflow || onPath[b] {
+			return
+		}
+		// several stores in one block: the last one in instruction order
+		if sts := stores[b]; len(sts) > 0 {
+			last = sts[0]
+			for _, st := range sts {
+				if instrIndex(st) > instrIndex(last) {
+					last = st
+				}
+			}
+		}
+		if b == ret.Block() {
+			nPaths++
+			if nPaths > 256 {
+				overflow = true
+				return
+			}
+			if last == nil {
+				overflow = true // read before any store: not this form
+				return
+			}
+			var gs []string
+			for _, rl := range fs.Rels() {
+				gs = append(gs, rr.val(rl.x, 0)+" "+rl.op.String()+" "+rr.val(rl.y, 0))
+			}
+			for f := range fs {
+				if _, ok := relsOf(f); !ok {
+					s := rr.val(f.cond, 0)
+					if !f.truth {
+						s = "!" + s
+					}
+					gs = append(gs, s)
+				}
+			}
+			sort.Strings(gs)
+			gs = dedupStrings(gs)
+			val := "&" + rr.val(last.Val, 0)
+			k := val + "\x00" + strings.Join(gs, "\x00")
+			if !seen[k] {
+				seen[k] = true
+				out = append(out, resultCase{Ret: ret, Value: val, Guards: gs})
+			}
+			return
+		}
+		onPath[b] = true
+		for _, s := range b.Succs {
+			nf := factSet{}
+			for k := range fs {
+				nf[k] = true
+			}
+			if ef, ok := edgeFact(b, s); ok {
+				F.expand(ef, nf, 0)
+			}
+			dfs(s, last, nf)
+		}
+		onPath[b] = false
+	}
+	dfs(fn.Blocks[0], nil, factSet{})
+	if overflow {
+		return nil
+	}
+	return out
+}
+
+func dedupStrings(xs []string) []string {
+	var out []string
+	for i, x := range xs {
+		if i == 0 || x != xs[i-1] {
+			out = append(out, x)
+		}
 	}
 	return out
 }
